@@ -36,6 +36,10 @@ type hist struct {
 	Tamper  string `json:"tamper"`  // none | block-hash | state-hash | count+1 | count-1 | drop | dup | alter | extra | swap-root | subst | empty | no-compute | no-compute-same
 	Idx     int    `json:"idx"`     // node index for drop/dup/alter/swap-root
 	PrevGone bool  `json:"prev_gone"` // the syncing node has no computed previous state (falls back to the state DB)
+	// Chain: further blocks after Ops; every block of the chain is obtained by state-change sync
+	// on top of the previous SYNCED block (nothing persisted in between), then Next is executed on top.
+	Chain [][]op `json:"chain,omitempty"`
+	Next  []op   `json:"next,omitempty"`
 }
 
 type stubChain struct{ db util.NodeDB }
@@ -175,6 +179,11 @@ func run(h hist, kinds map[string]int) (caseTerm string, fail string) {
 	}
 	if len(bsc.Nodes) != b.StateChangesCount {
 		return "", "change-count-differs-from-published-nodes"
+	}
+	if h.Tamper == "none" {
+		if f := wireCodec(bsc, kinds); f != "" {
+			return "", f
+		}
 	}
 
 	// the syncing node's copy of the block
@@ -408,6 +417,163 @@ func run(h hist, kinds map[string]int) (caseTerm string, fail string) {
 	return caseTerm, fail
 }
 
+// runChain: blocks 1..K executed by a generator, each published with NewBlockStateChange; a syncing
+// node that holds only the persisted previous state applies them one after the other, each on top
+// of the previous synced block; after every apply every key of the executed state must read back,
+// and a block executed on top of the last synced state must give the generator's root.
+func runChain(h hist, kinds map[string]int) (terms []string, fail string) {
+	defer func() {
+		if r := recover(); r != nil {
+			terms, fail = nil, "publish-or-apply-panics"
+		}
+	}()
+	stateDB := util.NewMemoryNodeDB()
+	pb := block.NewBlock("", 10)
+	pb.Hash = encryption.Hash("prev-block")
+	pmpt := util.NewMerklePatriciaTrie(util.NewLevelNodeDB(util.NewMemoryNodeDB(), stateDB, false), 10, nil, statecache.NewEmpty())
+	want := map[int]string{}
+	applyOps(pmpt, h.Prev, want)
+	pb.ClientState = pmpt
+	pb.ClientStateHash = pmpt.GetRoot()
+	pb.SetStateStatus(block.StateSuccessful)
+	if err := pmpt.SaveChanges(context.Background(), stateDB, false); err != nil {
+		panic(err)
+	}
+	// the syncing node's previous block: same state, read from the persisted DB
+	spb := block.NewBlock("", 10)
+	spb.Hash = pb.Hash
+	spb.ClientStateHash = pb.ClientStateHash
+	spb.ClientState = util.NewMerklePatriciaTrie(util.NewLevelNodeDB(util.NewMemoryNodeDB(), stateDB, false), 10, pb.ClientStateHash, statecache.NewEmpty())
+	spb.SetStateStatus(block.StateSuccessful)
+
+	all := append([][]op{h.Ops}, h.Chain...)
+	gprev, sprev := pb, spb
+	for i, ops := range all {
+		rnd := int64(11 + i)
+		gb := block.NewBlock("", rnd)
+		gb.Hash = encryption.Hash(fmt.Sprintf("chain-block-%d", i))
+		gb.PrevBlock, gb.PrevHash = gprev, gprev.Hash
+		gb.ClientState = block.CreateStateWithPreviousBlock(gprev, stateDB, rnd)
+		applyOps(gb.ClientState, ops, want)
+		gb.ClientStateHash = gb.ClientState.GetRoot()
+		gb.StateChangesCount = gb.ClientState.GetChangeCount()
+		gb.SetStateStatus(block.StateSuccessful)
+		bsc, err := block.NewBlockStateChange(gb)
+		if err != nil {
+			kinds["chain-no-change-set"]++
+			return terms, "" // a block that changes nothing ends the chain
+		}
+		if f := wireCodec(bsc, kinds); f != "" {
+			return terms, f
+		}
+		wire := datastore.ToMsgpack(bsc).Bytes()
+		rx := block.StateChangeProvider().(*block.StateChange)
+		if err := datastore.FromMsgpack(wire, rx); err != nil {
+			return terms, "honest-change-rejected"
+		}
+		sb := block.NewBlock("", rnd)
+		sb.Hash = gb.Hash
+		sb.PrevBlock, sb.PrevHash = sprev, sprev.Hash
+		sb.ClientStateHash = append([]byte{}, gb.ClientStateHash...)
+		sb.StateChangesCount = gb.StateChangesCount
+		var local []util.Node
+		if sprev.ClientState != nil {
+			local, _ = collect(sprev.ClientState)
+		}
+		err = sb.ApplyBlockStateChange(rx, &stubChain{db: stateDB})
+		kinds[fmt.Sprintf("chain-block-%d->%s", min(i, 3), classify(err))]++
+		if err != nil || sb.ClientState == nil {
+			return terms, "honest-change-rejected"
+		}
+		if !bytes.Equal(sb.ClientState.GetRoot(), gb.ClientStateHash) {
+			return terms, "honest-change-other-root"
+		}
+		// every key of the executed state, not only the root
+		for k, v := range want {
+			var got util.SecureSerializableValue
+			if err := sb.ClientState.GetNodeValue(path(k), &got); err != nil || string(got.Buffer) != v {
+				return terms, "synced-chain-state-differs"
+			}
+		}
+		if _, ok := collect(sb.ClientState); !ok {
+			return terms, "synced-chain-state-differs"
+		}
+		// Coq case for this apply
+		t := &ids{m: map[string]int{}}
+		var nodes, loc []string
+		for _, n := range rx.Nodes {
+			nodes = append(nodes, nodeTerm(t, n))
+		}
+		for _, n := range local {
+			loc = append(loc, nodeTerm(t, n))
+		}
+		bh := vh.Z(int64(t.id([]byte("blk:" + sb.Hash))))
+		rootT := vh.Z(int64(t.id(sb.ClientStateHash)))
+		terms = append(terms, fmt.Sprintf("{| scc_local := %s; scc_block := {| sb_hash := %s; sb_state := %s; sb_count := %s; sb_prev_state := %s |}; "+
+			"scc_change := {| sc_blk := %s; sc_root := %s; sc_nodes := %s |}; scc_computed := true; scc_status := SoOk; scc_root := %s |}",
+			vh.List(loc), bh, rootT, vh.Nat(sb.StateChangesCount), vh.Some(vh.Z(int64(t.id(sprev.ClientStateHash)))),
+			bh, vh.Z(int64(t.id(rx.Hash))), vh.List(nodes), rootT))
+		gprev, sprev = gb, sb
+	}
+	// one more block executed on top of the last synced state and on top of the generator's
+	if len(h.Next) > 0 {
+		rnd := int64(11 + len(all))
+		gs := block.CreateStateWithPreviousBlock(gprev, stateDB, rnd)
+		ss := block.CreateStateWithPreviousBlock(sprev, stateDB, rnd)
+		w2 := map[int]string{}
+		func() {
+			defer func() {
+				if recover() != nil {
+					fail = "execution-on-synced-state-fails"
+				}
+			}()
+			applyOps(gs, h.Next, w2)
+			applyOps(ss, h.Next, map[int]string{})
+		}()
+		if fail == "" && !bytes.Equal(gs.GetRoot(), ss.GetRoot()) {
+			fail = "execution-on-synced-state-differs"
+		}
+		kinds["chain-next-block-executed"]++
+	}
+	return terms, fail
+}
+
+// wireCodec: the published state change encoded and decoded (msgpack and JSON) keeps its nodes
+// and its dead nodes as sets, its root and its block hash.
+func wireCodec(bsc *block.StateChange, kinds map[string]int) string {
+	set := func(ns []util.Node) string {
+		var hs []string
+		for _, n := range ns {
+			if n != nil {
+				hs = append(hs, n.GetHash())
+			}
+		}
+		sort.Strings(hs)
+		return fmt.Sprint(hs)
+	}
+	for _, codec := range []string{"msgpack", "json"} {
+		rx := block.StateChangeProvider().(*block.StateChange)
+		var err error
+		if codec == "json" {
+			err = datastore.FromJSON(datastore.ToJSON(bsc).Bytes(), rx)
+		} else {
+			err = datastore.FromMsgpack(datastore.ToMsgpack(bsc).Bytes(), rx)
+		}
+		kinds["wire-codec-"+codec]++
+		switch {
+		case err != nil:
+			return "wire-codec-decode-fails:" + codec
+		case set(rx.Nodes) != set(bsc.Nodes):
+			return "wire-codec-changes-nodes:" + codec
+		case set(rx.DeadNodes) != set(bsc.DeadNodes):
+			return "wire-codec-changes-dead-nodes:" + codec
+		case !bytes.Equal(rx.Hash, bsc.Hash) || rx.Block != bsc.Block:
+			return "wire-codec-changes-root-or-block:" + codec
+		}
+	}
+	return ""
+}
+
 // collect returns every node of the trie's state.
 func collect(m util.MerklePatriciaTrieI) (out []util.Node, ok bool) {
 	ok = true
@@ -503,7 +669,7 @@ func main() {
 	rep.CaseInputs = []interface{}{}
 	rep.Rule = "previous state of 0-24 keys, block of 1-12 inserts/updates/deletes (also of equal values and of absent keys) over 4-40 colliding keys on the real MPT; " +
 		"the published change set applied honestly and with every tampering (other block hash, other declared state hash, count +-1, each node dropped / duplicated / altered, " +
-		"an extra node, the root swapped for an inner node, a new node withheld and padded with an old one, empty set, no ComputeProperties) on a syncing copy with and without a computed previous state; " +
+		"chains of 2-5 consecutive blocks each synced on top of the previous synced block (nothing persisted in between), every key compared after each apply and one more block executed on top; an extra node, the root swapped for an inner node, a new node withheld and padded with an old one, empty set, no ComputeProperties) on a syncing copy with and without a computed previous state; " +
 		"non-trivial = the change set has at least 3 nodes; distinct by input"
 	cf := &vh.CasesFile{Imports: []string{"Base.Corr", "Model.StateChange", "Corr.StateChange"}, CaseType: "scc_case", CheckFn: "scc_check", Shard: 150}
 	logging.InitLogging("development", "")
@@ -512,6 +678,32 @@ func main() {
 
 	handle := func(h hist, toCoq bool) {
 		kinds := map[string]int{}
+		if len(h.Chain) > 0 {
+			terms, fail := runChain(h, kinds)
+			for k, n := range kinds {
+				rep.CountN(k, n)
+			}
+			rep.Case(key(h), len(terms) >= 2, h)
+			if toCoq {
+				for _, tm := range terms {
+					cf.Add(tm)
+					rep.CaseInputs = append(rep.CaseInputs, h)
+				}
+			}
+			if fail != "" {
+				h2 := h
+				for len(h2.Chain) > 1 { // shortest failing chain
+					h3 := h2
+					h3.Chain = h2.Chain[:len(h2.Chain)-1]
+					if _, f := runChain(h3, map[string]int{}); f != fail {
+						break
+					}
+					h2 = h3
+				}
+				rep.Violate("C28:"+fail, "chain of synced blocks: "+fail, h2)
+			}
+			return
+		}
 		term, fail := run(h, kinds)
 		for k, n := range kinds {
 			rep.CountN(k, n)
@@ -564,6 +756,16 @@ func main() {
 		handle(rh, true)
 	} else {
 		rnd := vh.NewRand(o.Seed)
+		// chains of 2-5 consecutive blocks, all obtained by sync, nothing persisted in between
+		for i := 0; i < o.N(40, 400); i++ {
+			keys := rnd.Range(4, 40)
+			h := hist{Tamper: "none", Prev: genOps(rnd, rnd.Range(0, 24), keys, false), Ops: genOps(rnd, rnd.Range(1, 8), keys, true),
+				Next: genOps(rnd, rnd.Range(1, 6), keys, true)}
+			for j := rnd.Range(1, 4); j > 0; j-- {
+				h.Chain = append(h.Chain, genOps(rnd, rnd.Range(1, 8), keys, true))
+			}
+			handle(h, i < o.N(15, 60))
+		}
 		for i := 0; i < o.N(60, 600); i++ {
 			keys := rnd.Range(4, 40)
 			base := hist{Prev: genOps(rnd, rnd.Range(0, 24), keys, false), Ops: genOps(rnd, rnd.Range(1, 12), keys, true), PrevGone: rnd.Chance(1, 5)}
